@@ -36,6 +36,17 @@ def load_contracts():
         if os.path.exists(os.path.join(ROOT, 'contracts', m + '.py')):
             importlib.import_module('contracts.' + m)
             loaded.append(m)
+    # every clause must be checked under at least one property its function is verified for: a clause tagged only with
+    # properties the function is not listed under would never be an obligation, yet callers would assume it
+    orphan = []
+    for k, c in REGISTRY.items():
+        items = [(n, p) for n, p in c.clause_props.items()] + [('site:' + sp.name, sp.props) for sp in c.sites] + \
+                [('const:' + n, p) for n, fn, p in c.consts_] + [('lemma:' + n, p) for n, fn, p in c.lemmas_]
+        for name, props in items:
+            if props and not (set(props) & set(c.props)):
+                orphan.append('%s %s tagged %s, function listed under %s' % (k[1], name, list(props), c.props))
+    if orphan:
+        raise RuntimeError('contract clauses that no check would ever verify: ' + '; '.join(orphan))
     return loaded
 
 
